@@ -172,6 +172,8 @@ func xOp(toks []string) (string, bool) {
 		return xnumcodec(), true
 	case "xinf":
 		return xinf(toks), true
+	case "xkern":
+		return xkern(toks), true
 	}
 	return "", false
 }
